@@ -58,6 +58,7 @@ FILES = {
     "core_geom": "core/src/geometry/mod.rs",
     "iter_mod": "src/iterator/mod.rs",
     "iter_pixel": "src/iterator/pixel.rs",
+    "iter_contig": "src/iterator/contiguous.rs",
 }
 ADAPTERS = ["Translated", "Clipped", "Cropped", "ColorConverted"]
 ADAPTER_FILE = {"Translated": "translated", "Clipped": "clipped", "Cropped": "cropped", "ColorConverted": "color_converted"}
@@ -354,7 +355,12 @@ def load(repo):
 #        "pixel_Translated"  ("Iter", T)  ("Tuple", A, B)
 
 LEAN_TY = {"Rectangle": "Rectangle", "Point": "Point", "Size": "Size", "Color": "Color", "Pixel": "Pixel",
-           "Target": "DrawTargetT", "Call": "Call", "Bool": "Bool", "PhantomData": "PhantomData"}
+           "Target": "DrawTargetT", "Call": "Call", "Bool": "Bool", "PhantomData": "PhantomData",
+           "u32": "Nat", "usize": "Nat", "i32": "Int"}
+SCALARS = ("u32", "usize", "i32")
+SCALAR_LEAN = {"u32": "Nat", "usize": "Nat", "i32": "Int"}
+ARITH = {"+": "add", "-": "sub", "*": "mul", "/": "div"}
+CMP = {"==": "eq", "!=": "ne", "<": "lt", ">": "gt", "<=": "le", ">=": "ge"}
 
 RECT_METHODS = {  # method -> (prelude name, [param types], result type)
     "intersection": ("Rectangle_intersection", ["Rectangle"], "Rectangle"),
@@ -371,6 +377,8 @@ def lean_ty(t):
             return f"List {lean_ty_atom(t[1])}"
         if t[0] == "Tuple":
             return f"{lean_ty_atom(t[1])} × {lean_ty_atom(t[2])}"
+        if t[0] == "Option":
+            return f"Option {lean_ty_atom(t[1])}"
     return LEAN_TY.get(t, t)
 
 
@@ -410,6 +418,8 @@ class AdaptTranslator:
         """fields of an adapter struct / pixel_Translated as [(name, type)]"""
         if sname == "pixel_Translated":
             tag, nm = "iter_pixel", "Translated"
+        elif sname == "contiguous_Cropped":
+            tag, nm = "iter_contig", "Cropped"
         else:
             tag, nm = ADAPTER_FILE[sname], sname
         fields = self.src.structs.get((tag, nm))
@@ -429,8 +439,16 @@ class AdaptTranslator:
                 return ("Tuple", self.norm(t[1][0], tag, self_type, f, where), self.norm(t[1][1], tag, self_type, f, where))
             raise TrError(f"{where}: tuple type of {len(t[1])} items not supported")
         name = t if isinstance(t, str) else t[0]
-        if name in ("Rectangle", "Point", "Size"):
+        if name in ("Rectangle", "Point", "Size", "u32", "usize", "i32"):
             return name
+        if name == "bool":
+            return "Bool"
+        if name == "Option" and not isinstance(t, str) and len(t[1]) == 1:
+            return ("Option", self.norm(t[1][0], tag, self_type, f, where))
+        if name in ("Item", "Self::Item") and tag == "iter_contig":
+            return "Color"
+        if name == "I" and tag == "iter_contig":
+            return ("Iter", "Color")
         if name in ("Self::Color", "T::Color", "C"):
             return "Color"
         if name == "Pixel":
@@ -531,6 +549,14 @@ class AdaptTranslator:
             body = self.result_block(stmts, tail, env, ctx, shape, True, "  ")
             self.shapes.append([lean_name, self_type, f.name, True, shape.tail, shape.bare, shape.paths])
             rt = "Call"
+        elif kind == "stateful":
+            # a `&mut self` method returning a value becomes (value, updated self); locals and `mut` parameters are
+            # rebound (`let iter := ..`); early `return` / statement `if` by copying the continuation into the arms
+            ctx["mut_self"] = f.self_kind == "refmut"
+            ctx["ret"] = ret
+            items = [("stmt", st) for st in stmts] + ([("tail", tail)] if tail is not None else [])
+            body = self.st_seq(items, env, ctx, "  ")
+            rt = ("Tuple", ret, self_type) if ctx["mut_self"] else ret
         else:
             if ret in ("Call", "unit"):
                 raise TrError(f"{where}: return type not supported here")
@@ -594,6 +620,141 @@ class AdaptTranslator:
             raise TrError(f"{ctx['where']}: block without a value")
         txt, t = self.expr(tail, env, ctx, ind + "  ")
         return "\n".join(lines + [f"{ind}{txt}"]), t
+
+    # ---- stateful bodies (`iterator::contiguous::Cropped::{new, next}`)
+    def st_finish(self, vtxt, vt, ctx, where):
+        ret = ctx["ret"]
+        if vt != ret and not (isinstance(ret, tuple) and ret[0] == "Option" and vt == ("Option", "?")):
+            raise TrError(f"{where}: value of type {vt} where the function returns {ret}")
+        return f"({vtxt}, self)" if ctx["mut_self"] else vtxt
+
+    def iter_place(self, e, env, ctx):
+        """`iter` (a local / parameter) or `self.iter`: (kind, name, read text) when its type is an iterator."""
+        while e[0] in ("paren", "ref", "deref"):
+            e = e[2]
+        if e[0] == "path" and len(e[2]) == 1 and e[2][0] != "self" and isinstance(env.get(e[2][0]), tuple) \
+                and env[e[2][0]][0] == "Iter":
+            return ("local", e[2][0], lvar(e[2][0]), env[e[2][0]])
+        if e[0] == "field" and e[2][0] == "path" and e[2][2] == ["self"] and ctx.get("mut_self"):
+            st = env["self"]
+            ft = dict(self.struct_fields(st)).get(e[3])
+            if isinstance(ft, tuple) and ft[0] == "Iter":
+                return ("self", e[3], f"({st}.{e[3]} self)", ft)
+        return None
+
+    def iter_mut_call(self, e, env, ctx, ind):
+        """`<place>.next()` / `<place>.nth(n)`: (place, text of the (item, rest) pair, item type) or None"""
+        if e[0] != "mcall" or e[3] not in ("next", "nth"):
+            return None
+        pl = self.iter_place(e[2], env, ctx)
+        if pl is None:
+            return None
+        where = f"{ctx['where']}: line {e[1]}"
+        if e[3] == "next":
+            self.args(e[5], [], env, ctx, ind, where)
+            return pl, f"(iter_next {pl[2]})", ("Option", pl[3][1])
+        if len(e[5]) != 1:
+            raise TrError(f"{where}: `nth` with {len(e[5])} arguments")
+        ntxt, nt = self.expr(e[5][0], env, ctx, ind, want="usize")
+        if nt != "usize":
+            raise TrError(f"{where}: `nth` of a value of type {nt}")
+        return pl, f"(iter_nth {pl[2]} {ntxt})", ("Option", pl[3][1])
+
+    def st_rebind(self, pl, pair_snd, env):
+        if pl[0] == "local":
+            return f"let {pl[2]} := {pair_snd};"
+        return f"let self := {{ self with {pl[1]} := {pair_snd} }};"
+
+    def st_seq(self, items, env, ctx, ind):
+        if not items:
+            raise TrError(f"{ctx['where']}: a path of the body ends without a value")
+        kind, x = items[0]
+        rest = items[1:]
+        if kind == "tail":
+            e = x
+            while e[0] == "paren":
+                e = e[2]
+            where = f"{ctx['where']}: line {e[1]}"
+            if rest:
+                raise TrError(f"{where}: code after the value of a block")
+            if e[0] == "if":
+                _, line, cond, then, els = e
+                if els is None:
+                    raise TrError(f"{where}: `if` without `else` as a value")
+                ctxt, ct = self.expr(cond, env, ctx, ind + "  ")
+                if ct != "Bool":
+                    raise TrError(f"{where}: condition of type {ct}")
+                a = self.st_seq([("stmt", st) for st in then[2]] + ([("tail", then[3])] if then[3] is not None else []), env, ctx, ind + "  ")
+                b = self.st_seq([("stmt", st) for st in els[2]] + ([("tail", els[3])] if els[3] is not None else []), env, ctx, ind + "  ")
+                return f"{ind}if {ctxt} then\n{a}\n{ind}else\n{b}"
+            if e[0] == "block":
+                return self.st_seq([("stmt", st) for st in e[2]] + ([("tail", e[3])] if e[3] is not None else []), env, ctx, ind)
+            if e[0] == "return":
+                if e[2] is None:
+                    raise TrError(f"{where}: `return` without a value")
+                return self.st_seq([("tail", e[2])], env, ctx, ind)
+            mc = self.iter_mut_call(e, env, ctx, ind)
+            if mc is not None:
+                pl, pair, vt = mc
+                return (f"{ind}let r' := {pair};\n{ind}{self.st_rebind(pl, chr(114) + chr(39) + '.2', env)}\n"
+                        f"{ind}{self.st_finish(chr(114) + chr(39) + '.1', vt, ctx, where)}")
+            vtxt, vt = self.expr(e, env, ctx, ind + "  ", want=ctx["ret"])
+            return f"{ind}{self.st_finish(vtxt, vt, ctx, where)}"
+        st = x
+        where = f"{ctx['where']}: line {st[1]}"
+        if st[0] == "let":
+            _, line, pat, ty, e, mut = st
+            if pat[0] != "pbind":
+                raise TrError(f"{where}: only `let name = ..` is supported")
+            if self.iter_mut_call(e, env, ctx, ind) is not None:
+                raise TrError(f"{where}: `let` bound to a mutating iterator call is not supported")
+            txt, t = self.expr(e, env, ctx, ind + "  ")
+            env2 = dict(env)
+            env2[pat[2]] = t
+            return f"{ind}let {lvar(pat[2])} := {txt};\n" + self.st_seq(rest, env2, ctx, ind)
+        if st[0] == "assign":
+            _, line, op, lhs, rhs = st
+            if not (lhs[0] == "field" and lhs[2][0] == "path" and lhs[2][2] == ["self"] and ctx["mut_self"]):
+                raise TrError(f"{where}: assignment to something other than a field of `&mut self`")
+            sname = env["self"]
+            ft = dict(self.struct_fields(sname)).get(lhs[3])
+            if ft not in SCALARS:
+                raise TrError(f"{where}: assignment to field `{lhs[3]}` of type {ft}")
+            rtxt, rt = self.expr(rhs, env, ctx, ind + "  ", want=ft)
+            if rt != ft:
+                raise TrError(f"{where}: assignment of a value of type {rt} to a field of type {ft}")
+            if op == "=":
+                v = rtxt
+            elif op in ("+=", "-=", "*="):
+                v = f"({ft}_{ARITH[op[0]]} ({sname}.{lhs[3]} self) {rtxt})"
+            else:
+                raise TrError(f"{where}: assignment operator `{op}` not supported")
+            return f"{ind}let self := {{ self with {lhs[3]} := {v} }};\n" + self.st_seq(rest, env, ctx, ind)
+        if st[0] == "expr":
+            e = st[2]
+            if e[0] == "return":
+                if e[2] is None:
+                    raise TrError(f"{where}: `return` without a value")
+                return self.st_seq([("tail", e[2])], env, ctx, ind)
+            if e[0] == "if":
+                _, line, cond, then, els = e
+                ctxt, ct = self.expr(cond, env, ctx, ind + "  ")
+                if ct != "Bool":
+                    raise TrError(f"{where}: condition of type {ct}")
+
+                def as_stmts(blk):
+                    if blk is None:
+                        return []
+                    return [("stmt", s_) for s_ in blk[2]] + ([("stmt", ("expr", blk[3][1], blk[3]))] if blk[3] is not None else [])
+                a = self.st_seq(as_stmts(then) + rest, env, ctx, ind + "  ")
+                b = self.st_seq(as_stmts(els) + rest, env, ctx, ind + "  ")
+                return f"{ind}if {ctxt} then\n{a}\n{ind}else\n{b}"
+            mc = self.iter_mut_call(e, env, ctx, ind)
+            if mc is not None:
+                pl, pair, vt = mc       # the item is dropped
+                return f"{ind}{self.st_rebind(pl, pair + '.2', env)}\n" + self.st_seq(rest, env, ctx, ind)
+            raise TrError(f"{where}: a statement-position `{e[0]}` expression is not supported")
+        raise TrError(f"{where}: statement `{st[0]}` is not supported")
 
     # ---- `Result` bodies: the parent call and its shape
     def peel(self, e, shape):
@@ -687,6 +848,18 @@ class AdaptTranslator:
         k = e[0]
         if k in ("paren", "ref", "deref"):
             return self.expr(e[2], env, ctx, ind, allow_call, want)
+        if k == "int":
+            if want not in SCALARS:
+                raise TrError(f"{where}: integer literal where its type is not known from the context")
+            if e[3] is not None and e[3] != want:
+                raise TrError(f"{where}: literal suffix `{e[3]}` where {want} is expected")
+            return f"({e[2]} : {SCALAR_LEAN[want]})", want
+        if k == "cast":
+            txt, t = self.expr(e[2], env, ctx, ind)
+            to = e[3]
+            if (t, to) in (("i32", "usize"), ("u32", "usize")):
+                return f"({t}_as_{to} {txt})", to
+            raise TrError(f"{where}: cast from {t} to {tr_rect.type_str(to)} is not known to the translator")
         if k == "path":
             segs = e[2]
             if len(segs) == 1:
@@ -694,6 +867,8 @@ class AdaptTranslator:
                     return lvar(segs[0]), env[segs[0]]
                 if segs[0] == "PhantomData":
                     return "PhantomData_mk", "PhantomData"
+                if segs[0] == "None":
+                    return "Option.none", (want if isinstance(want, tuple) and want[0] == "Option" else ("Option", "?"))
             raise TrError(f"{where}: name `{'::'.join(segs)}` is not known")
         if k == "field":
             rtxt, rt = self.expr(e[2], env, ctx, ind)
@@ -702,7 +877,11 @@ class AdaptTranslator:
                 if fl not in RECT_FIELDS:
                     raise TrError(f"{where}: Rectangle has no field `{fl}`")
                 return f"(Rectangle_{fl} {rtxt})", RECT_FIELDS[fl]
-            if rt in ADAPTERS or rt == "pixel_Translated":
+            if rt == "Size" and fl in ("width", "height"):
+                return f"(Size_{fl} {rtxt})", "u32"
+            if rt == "Point" and fl in ("x", "y"):
+                return f"(Point_{fl} {rtxt})", "i32"
+            if rt in ADAPTERS or rt in ("pixel_Translated", "contiguous_Cropped"):
                 for (fn_, ft) in self.struct_fields(rt):
                     if fn_ == fl:
                         return f"({rt}.{fl} {rtxt})", ft
@@ -715,8 +894,19 @@ class AdaptTranslator:
             return f"(Point_neg {txt})", "Point"
         if k == "bin":
             _, line, op, l, r = e
-            lt_, ltype = self.expr(l, env, ctx, ind)
-            rt_, rtype = self.expr(r, env, ctx, ind)
+            if l[0] == "int" and r[0] != "int":
+                rt_, rtype = self.expr(r, env, ctx, ind)
+                lt_, ltype = self.expr(l, env, ctx, ind, want=rtype)
+            else:
+                lt_, ltype = self.expr(l, env, ctx, ind, want=want if op in ARITH else None)
+                rt_, rtype = self.expr(r, env, ctx, ind, want=ltype)
+            if ltype == rtype and ltype in SCALARS:
+                if op in ARITH:
+                    return f"({ltype}_{ARITH[op]} {lt_} {rt_})", ltype
+                if op in CMP:
+                    return f"({ltype}_{CMP[op]} {lt_} {rt_})", "Bool"
+            if ltype == rtype == "Bool" and op in ("||", "&&"):
+                return f"(bool_{'or' if op == '||' else 'and'} {lt_} {rt_})", "Bool"
             if op == "==" and ltype == rtype == "Rectangle":
                 return f"(Rectangle_eq {lt_} {rt_})", "Bool"
             if op == "!=" and ltype == rtype == "Rectangle":
@@ -733,13 +923,15 @@ class AdaptTranslator:
                 raise TrError(f"{where}: struct base `..` not supported")
             if ctx["tag"] == "iter_pixel" and sname == "Translated":
                 sname = "pixel_Translated"
+            if ctx["tag"] == "iter_contig" and sname == "Cropped":
+                sname = "contiguous_Cropped"
             decl = self.struct_fields(sname)
             if sorted(n for n, _ in fields) != sorted(n for n, _ in decl):
                 raise TrError(f"{where}: struct literal of {sname} does not list exactly its fields")
             parts = []
             for (fn_, fe) in fields:
-                txt, t = self.expr(fe, env, ctx, ind)
                 want_t = dict(decl)[fn_]
+                txt, t = self.expr(fe, env, ctx, ind, want=want_t)
                 if t != want_t:
                     raise TrError(f"{where}: field `{fn_}` of {sname} has type {want_t}, got {t}")
                 parts.append(f"{fn_} := {txt}")
@@ -774,6 +966,14 @@ class AdaptTranslator:
             if name not in self.done:
                 self.translate_next_map(name, where)
             return f"(iter_of_next_map (pixel_Translated.iter {txt}) ({name} {txt}))", ("Iter", "Pixel")
+        if t == "contiguous_Cropped" and want == ("Iter", "Color"):
+            # a crate-defined iterator with a stateful `next`: the items it yields, on explicit fuel
+            info = self.need("iter_contig", "Cropped", "Iterator", "next", "contiguous_Cropped", "contiguous_Cropped_next",
+                             where, kind="stateful")
+            if info[1] != ("Tuple", ("Option", "Color"), "contiguous_Cropped"):
+                raise TrError(f"{where}: `Cropped::next` does not return `Option<colour>`")
+            ctx["fuel"] = True
+            return f"(iter_collect_fuel contiguous_Cropped_next fuel {txt})", ("Iter", "Color")
         return txt, t
 
     def translate_next_map(self, lean_name, where):
@@ -862,8 +1062,10 @@ class AdaptTranslator:
         if len(segs) == 2 and segs[1] == "new" and segs[0] == "Cropped" and tag == "clipped":
             if "iterator::contiguous::Cropped" not in self.src.uses[tag]:
                 raise TrError(f"{where}: `Cropped` is not imported from `iterator::contiguous` in {FILES[tag]}")
-            a = self.args(args, [("Iter", "Color"), "Size", "Rectangle"], env, ctx, ind, where)
-            return f"(contiguous_Cropped_new {a[0]} {a[1]} {a[2]})", ("Iter", "Color")
+            info = self.need("iter_contig", "Cropped", None, "new", "contiguous_Cropped", "contiguous_Cropped_new", where,
+                             kind="stateful")
+            a = self.args(args, info[0], env, ctx, ind, where)
+            return self.call_text("contiguous_Cropped_new", info, a, ctx), info[1]
         if len(segs) == 2 and segs[1] == "new" and segs[0] in ADAPTERS and tag == "dt_mod":
             info = self.need(ADAPTER_FILE[segs[0]], segs[0], None, "new", segs[0], f"{segs[0]}_new", where)
             a = self.args(args, info[0], env, ctx, ind, where)
@@ -910,6 +1112,11 @@ class AdaptTranslator:
             pn, want, res = RECT_METHODS[name]
             a = self.args(args, want, env, ctx, ind, where)
             return "(" + " ".join([pn, rtxt] + a) + ")", res
+        if rt == "u32":
+            if name == "saturating_sub":
+                a = self.args(args, ["u32"], env, ctx, ind, where)
+                return f"(u32_saturating_sub {rtxt} {a[0]})", "u32"
+            raise TrError(f"{where}: method `{name}` on u32 is not known to the translator")
         if rt == "Color":
             if name == "into" and not args:
                 if not ctx["into_ok"]:
@@ -985,10 +1192,10 @@ def translate(repo):
     src = load(repo)
     tr = AdaptTranslator(src)
     structs = []
-    for sname in ["pixel_Translated", "Translated", "Clipped", "Cropped", "ColorConverted"]:
+    for sname in ["pixel_Translated", "contiguous_Cropped", "Translated", "Clipped", "Cropped", "ColorConverted"]:
         fields = tr.struct_fields(sname)
-        rust = "pixel::Translated" if sname == "pixel_Translated" else sname
-        tag = "iter_pixel" if sname == "pixel_Translated" else ADAPTER_FILE[sname]
+        rust = {"pixel_Translated": "pixel::Translated", "contiguous_Cropped": "iterator::contiguous::Cropped"}.get(sname, sname)
+        tag = {"pixel_Translated": "iter_pixel", "contiguous_Cropped": "iter_contig"}.get(sname) or ADAPTER_FILE[sname]
         structs.append(f"/-- `struct {rust}` of {FILES[tag]} -/\nstructure {sname} where\n" +
                        "\n".join(f"  {n} : {lean_ty(t)}" for n, t in fields) + "\n")
     # roots: trait defaults on an abstract target, then everything of every adapter, then the constructors
@@ -1007,7 +1214,7 @@ def translate(repo):
     untranslated = []
     for (tag, ty, trt, head, names) in src.impls:
         relevant = (tag in ("translated", "clipped", "cropped", "color_converted", "dt_mod")) or \
-                   (tag == "iter_pixel" and ty == "Translated")
+                   (tag == "iter_pixel" and ty == "Translated") or (tag == "iter_contig" and ty == "Cropped")
         if not relevant:
             continue
         for n in names:
